@@ -1,3 +1,36 @@
-From Ebml Require Import Base Tools Spec Reader.
-Example C13_ex : ebml_size 127 1 = SUnknown /\ ebml_size 127 2 = SKnown 127.
+(* C13 — each tolerance switch relaxes only its own check; relaxing never loses tags.  Statements only. *)
+From Ebml Require Import Base Tools Spec Reader Pure Proofs.Tactics Proofs.ReaderIO Proofs.Refine Proofs.CapBound Proofs.PureProofs.
+
+(* Tolerating a class makes that error kind impossible, and in strict mode no successful item is (or contains) a raw tag: for
+   every configuration, every input and every sequence of next()/try_recover() calls, every result of the abstract reader's
+   run satisfies rout_ok (an error of kind InvalidTagId / HierarchyError / OversizedChildElement appears only if that class is
+   not tolerated; with unknown ids not tolerated no item is a raw tag) *)
+Theorem C13_tolerated_kinds_impossible : forall c input ops, Forall (rout_ok c) (p_run c input ops).
+Proof. exact run_respects_tolerances. Qed.
+
+(* ... and so for the buffered machine under every chunking and capacity *)
+Theorem C13_tolerated_kinds_impossible_buffered : forall c cap0 script input ops, calm script ->
+  Forall (rout_ok c) (run_reader c cap0 script input ops).
+Proof. exact buffered_run_respects_tolerances. Qed.
+
+(* the switches silence nothing else: the only errors a header check can produce are of a class the configuration does
+   not tolerate, or one of the never-tolerated kinds (end of file, invalid tag data, size above the limit) *)
+Theorem C13_header_errors : forall c st st' e, p_header c st = (st', Err e) -> allowed c e.
+Proof. exact p_header_err. Qed.
+
+(* the size limit is enforced under every tolerance setting (stated on the buffered machine) *)
+Theorem C13_limit_always : forall c st id ty n hl m,
+  snd (peek_header c st) = Ok (id, ty, SKnown n, hl) -> c_max c = Some m -> n <= m.
+Proof. exact peek_header_size_ok. Qed.
+
+(* PARTIAL: "the strict items are a prefix of every more tolerant parse" (monotonicity) is not proved; it is covered by the
+   correspondence groups over all 8 tolerance subsets. *)
+
+Example C13_ex :
+  let sp := [ {| e_id := 129; e_ty := DMaster; e_path := [] |}; {| e_id := 16641; e_ty := DUInt; e_path := [PId 129] |} ] in
+  let mk a := {| c_sp := sp; c_allow_id := a; c_allow_hier := false; c_allow_over := false; c_max := Some 4000000000; c_buffered := []; c_emit_eof := true |} in
+  (* an unknown id 0x99 inside Root: its own error kind at its offset in strict mode, a raw tag when tolerated *)
+  p_run (mk false) [129; 135; 153; 129; 7; 65; 1; 129; 5] [RAll] = [OItem (TStart 129) 0; OErr (RInvalidTagId 2 153)] /\
+  p_run (mk true) [129; 135; 153; 129; 7; 65; 1; 129; 5] [RAll] =
+    [OItem (TStart 129) 0; OItem (TElem 153 (VRaw [7])) 2; OItem (TElem 16641 (VU 5)) 5; OItem (TEnd 129) 0; ONone].
 Proof. vm_compute. split; reflexivity. Qed.
